@@ -141,6 +141,12 @@ package main
 //@   ensures#nonnil err == nil ==> len(ids) >= 1 && (forall j in 0..len(ids) :: ids[j] != nil)                      [C14 C18]
 //@   ensures#nil err != nil ==> ids == nil                                                                          [C14 C18]
 
+//@ func (*EncryptedIdentity).Unwrap(i, stanzas) (fileKey, err)
+//@   requires i != nil && (forall j in 0..len(stanzas) :: stanzas[j] != nil) && (forall j in 0..len(i.identities) :: i.identities[j] != nil)
+//@   loop 1 invariant -1 <= rangeindex && rangeindex < len($ranged) && (forall j in 0..len($ranged) :: $ranged[j] != nil)
+//@   loop 1 decreases len($ranged) - rangeindex
+//@   ensures#nil err != nil ==> fileKey == nil                                                                      [C04 C14]
+
 //@ func (*EncryptedIdentity).Recipients(i) (recs, err)
 //@   modifies i.identities
 //@   frame assumed decrypts the identity file through age.Decrypt and prompts: callee effects on ghost I/O state are not enumerated
@@ -160,6 +166,13 @@ package main
 //@   call decrypt#1 requires same(arg1, in) && same(arg2, out)                                                      [C15]
 //@   ensures#ran calls("decrypt",1) == old(calls("decrypt",1)) + 1                                                  [C15]
 
+// the identity that turns "-i with a passphrase file" into a helpful fatal error:
+// it returns (with "not mine") exactly for headers that are not a lone scrypt stanza
+//@ func (rejectScryptIdentity).Unwrap(r, stanzas) (fk, err)
+//@   requires forall j in 0..len(stanzas) :: stanzas[j] != nil
+//@   ensures#foreign fk == nil && err == age.ErrIncorrectIdentity && (len(stanzas) != 1 || stanzas[0].Type != "scrypt")            [C04 C10 C15]
+//@   modifies nothing
+
 //@ func decryptNotPass(flags, in, out)
 //@   requires in != nil && out != nil
 //@   loop 1 invariant#idx -1 <= rangeindex && rangeindex < len(flags)
@@ -173,7 +186,6 @@ package main
 //@   maypanic
 
 //@ func passphrasePromptForEncryption() (p, err)
-//@   nosafety
 //@   loop 1 invariant true
 
 //@ func encryptPass(in, out, armor)
@@ -194,7 +206,6 @@ package main
 //@   ensures#ran calls("encrypt",1) == old(calls("encrypt",1)) + 1                                                  [C15]
 
 //@ func bufferTerminalInput(in) (r, err)
-//@   nosafety
 //@   requires in != nil
 //@   modifies in.$rem
 //@   frame assumed (*bytes.Buffer).ReadFrom is library code without a contract
@@ -215,3 +226,15 @@ package main
 //@   call Unwrap#1 requires same(arg1, stanzas)                                                                                 [C10]
 
 //@ methodset (*lazyOpener) Close, Write                                                [C15]
+
+// ---- C14: zero-annotation no-panic sweep of the remaining input-handling helpers
+//@ func (*multiFlag).Set(f, value) (err)
+//@   requires f != nil
+//@   ensures#len err == nil && len(*f) == len(old(*f)) + 1 && (*f)[len(*f) - 1] == value                            [C15 C18]
+
+//@ func (*EncryptedIdentity).decrypt(i) (err)
+//@   requires i != nil
+//@   ensures#ids err == nil ==> (forall j in 0..len(i.identities) :: i.identities[j] != nil)                        [C14 C18]
+
+//@ func passphrasePromptForDecryption() (p, err)
+//@   ensures#nil err != nil ==> p == ""                                                                            [C14]
